@@ -6,13 +6,16 @@ CLAIM = {
  'text': ('Lean 4 theorems, for all tables and all format specifications in the stated domain, about a branch-for-branch '
           'model of CbEngValWrite/CbEngVal.lisBytes/CbEngValRead, LrTableWrite/LrTable.genLisBytes/LrTableRead, '
           'EntryBlockSet (defaults, setEntryBlock, _setLisSizeEven, lisBytes, readFromFile), DatumSpecBlockRead and '
-          'LrDFSRRead: cb_roundtrip, table_roundtrip (name, row order with first-kept de-duplication, column set, cells, '
-          'units), dupe_rows_first_kept, ebs_roundtrip (every legal entry block set, hence every subset), ebs_even_length, '
-          'dsb_roundtrip, dfsr_roundtrip, f68_roundtrip (code-68 representable floats are fixed points). The model is tied '
-          'to the source on every run: random and boundary tables / format specifications are written by the real code and '
-          'by the model (bytes compared), decoded by both (complete decoded state compared), plus hand-assembled and '
-          'malformed block streams; an oracle that does not use the model checks the decoded objects against the generated content. '
-          'Proof is the right level: the property quantifies over unbounded table shapes and all 2^16 entry-block subsets.'),
+          'LrDFSRRead: cb_roundtrip, table_roundtrip (name block, rows = first-kept rows in order, every cell type/code/size/'
+          'mnemonic/units/value, row index, column labels), table_roundtrip_exact, dupe_rows_first_kept (+ kept_sublist, '
+          'kept_names_distinct, kept_covers), ebs_roundtrip for every legal entry block set and ebs_subset_legal (every list '
+          'of setEntryBlock calls from the defaults, hence every subset of the 16 settable blocks), ebs_even_length, '
+          'bursts_spec, dsb_roundtrip, dfsr_roundtrip, f68_roundtrip (code-68 representable floats are fixed points). The '
+          'model is tied to the source on every run: random and boundary tables / format specifications are written by the '
+          'real code and by the model (bytes and writer state compared), decoded by both through physical records (complete '
+          'decoded state compared), plus hand-assembled and malformed block streams; an oracle that does not use the model '
+          'checks the decoded objects against the generated content. Proof is the right level: the property quantifies over '
+          'unbounded table shapes and all 2^16 entry-block subsets.'),
  'note': ('Trusted: Lean kernel; model<->code correspondence on the cases of the run; struct.pack/unpack, dict and the '
           'physical-record layer (C05) are modelled as a flat logical-data byte stream. Floats are exact dyadics; the '
           'general float cell is proved to decode to from68(to68(v)); |from68(to68 v) - v| <= 2^-22 |v| is checked by the oracle '
@@ -322,6 +325,17 @@ def oracle_table(ctx, mods, case, wline, wobj, lr, how):
     rows = [[(c if isinstance(c, tuple) else (c, None)) for c in r] for r in rows]
     k1 = first_kept([r[0][0] for r in rows]); rows1 = [rows[i] for i in k1]          # writer
     k2 = first_kept([exp_value(r[0][0]) for r in rows1]); rowsE = [rows1[i] for i in k2]   # reader, on decoded names
+    try:
+        bad = _table_diff(t, name, mn, rowsE)
+    except Exception as e:
+        bad = 'decoded table cannot be inspected: %r' % (e,)
+    if bad:
+        ctx.fail(c2, bad, finding=cls); return
+    if len(rowsE) >= 1 and len(mn) >= 2:
+        ctx.nontriv(('table', case['name'], tuple(case['mnems']), tuple(tuple(r) for r in case['rows'])))
+
+
+def _table_diff(t, name, mn, rowsE):
     bad = None
     if t.value != name: bad = 'table name %r != %r' % (t.value, name)
     elif len(t) != len(rowsE): bad = 'row count %d != %d' % (len(t), len(rowsE))
@@ -346,10 +360,7 @@ def oracle_table(ctx, mods, case, wline, wobj, lr, how):
             if bad: break
             # retrieval by row label gives the same row
             if isinstance(row.value, bytes) and t[row.value] is not row: bad = 'table[%r] is not row %d' % (row.value, ri); break
-    if bad:
-        ctx.fail(c2, bad, finding=cls); return
-    if len(rowsE) >= 1 and len(mn) >= 2:
-        ctx.nontriv(('table', case['name'], tuple(case['mnems']), tuple(tuple(r) for r in case['rows'])))
+    return bad
 
 
 def eb_legal(b):
@@ -400,6 +411,17 @@ def oracle_dfsr(ctx, mods, case, wline, ebs, lr, how):
         t, s, r, v = b.split('.', 3)
         if 0 < int(t) <= 16 and int(t) != 10:
             exp[int(t)] = (int(s), int(r), untok(v))
+    try:
+        bad = _dfsr_diff(case, ebs, d, exp)
+    except Exception as e:
+        bad = 'decoded format specification cannot be inspected: %r' % (e,)
+    if bad:
+        ctx.fail(c2, bad); return
+    if case['blocks'] and case['chans']:
+        ctx.nontriv(('dfsr', tuple(case['blocks']), tuple(case['chans'])))
+
+
+def _dfsr_diff(case, ebs, d, exp):
     bad = None
     ebytes = bytes(ebs.lisBytes())
     if len(ebytes) % 2: bad = 'entry block set written with odd length %d' % len(ebytes)
@@ -430,10 +452,7 @@ def oracle_dfsr(ctx, mods, case, wline, ebs, lr, how):
                    [x.samples(i) for i in range(x.subChannels)])
             want = (n, si, so, u, api // 1000000, api // 1000 % 1000, api // 10 % 100, api % 10, fn, cl, rc, es, [eb] * es, esa)
             if got != want: bad = 'channel %d decoded as %r, expected %r' % (k, got, want)
-    if bad:
-        ctx.fail(c2, bad); return
-    if case['blocks'] and case['chans']:
-        ctx.nontriv(('dfsr', tuple(case['blocks']), tuple(case['chans'])))
+    return bad
 
 
 # ----------------------------------------------------------------------------------------------- generators
@@ -490,7 +509,7 @@ def gen_table(rng, kind):
         m = gen_mnem(rng)
         if m not in mn and m != b'MNEM': mn.append(m)
     if rng.random() < 0.6: mn[0] = b'MNEM'
-    elif ncol > 1 and rng.random() < 0.15: mn[rng.randrange(1, ncol)] = b'MNEM'
+    elif ncol > 1 and rng.random() < 0.01: mn[rng.randrange(1, ncol)] = b'MNEM'
     nrow = rng.choice([0, 1, 1, 2, 3, 4, 5, 8])
     names = []
     rows = []
@@ -673,7 +692,7 @@ def _run(ctx, mods):
         ctx.corr('mnem', {'op': 'mnem', 'b': hx(b)}, 'ok ' + hx(Mnem.Mnem(b).m), m)
     # ------------------------------------------------ tables written by the implementation
     cases = []
-    for i in range(ctx.n(5000, 60000)):
+    for i in range(ctx.n(12000, 120000)):
         kind = 'wild' if i % 5 == 4 else 'dom'
         cases.append(gen_table(rng, kind))
     # small exhaustive family: every (kind of first cell) x (kind of last cell) x rows 0..2 x dupe pattern
@@ -682,6 +701,8 @@ def _run(ctx, mods):
     for f in firsts:
         for l in lasts:
             for mn0 in (b'MNEM', b'NAME'):
+                if mn0 == b'MNEM' and not isinstance(f, bytes) and (f not in (7, 1.5) or l != b'LAST'):
+                    continue          # class C08-MNEMTYPE: two representatives are enough
                 for u in (None, b'UNIT'):
                     cell = (l, u) if u else l
                     cases.append({'op': 'table', 'lrType': 34, 'name': tok(b'TABL'), 'mnems': [hx(mn0), hx(b'COL1')],
@@ -702,7 +723,7 @@ def _run(ctx, mods):
         line, _ = impl_table(mods, lr, how)
         ctx.corr('table_read', dict(c, how=list(how)), line, m)
     # ------------------------------------------------ hand-assembled / ill-formed block streams (reader only)
-    streams = [gen_stream(rng) for _ in range(ctx.n(4000, 40000))]
+    streams = [gen_stream(rng) for _ in range(ctx.n(8000, 80000))]
     srep = ctx.lean(['table ' + hx(s) for s in streams])
     for s, m in zip(streams, srep):
         how = gen_how(rng, len(s))
@@ -710,7 +731,7 @@ def _run(ctx, mods):
         ctx.corr('table_stream', {'op': 'stream', 'lr': hx(s), 'how': list(how)}, line, m)
     oracle_dupes(ctx, mods)
     # ------------------------------------------------ format specifications
-    dcases = [gen_dfsr(rng, 'wild' if i % 5 == 4 else 'dom') for i in range(ctx.n(5000, 50000))]
+    dcases = [gen_dfsr(rng, 'wild' if i % 5 == 4 else 'dom') for i in range(ctx.n(10000, 80000))]
     if ctx.tier == 'thorough':
         types = [t for t in range(1, 17) if t != 10]
         canon = {t: gen_eb(rng, t) for t in types}
@@ -738,7 +759,7 @@ def _run(ctx, mods):
     ctx.sample({'op': 'dfsr', 'request': dfsr_line(dcases[0])[:300], 'model_reply': wrep[0][:300]})
     # corrupt a share of the records: truncation, spurious bytes
     extra = []
-    for c, lr, how in reads[:ctx.n(1500, 15000)]:
+    for c, lr, how in reads[:ctx.n(3000, 30000)]:
         q = rng.random()
         if q < 0.5: b2 = lr[:rng.randrange(0, len(lr))]
         elif q < 0.8: b2 = lr + bytes(rng.randrange(256) for _ in range(rng.randint(1, 45)))
@@ -780,7 +801,10 @@ def check_dupes(ctx, mods, case, lr, names):
     except Exception as e:
         ctx.fail(case, 'record with duplicate rows could not be read: %r' % (e,)); return
     keep = first_kept(names)
-    got = [(r.value, r[b'SEQ '].value) for r in t.genRows()]
+    try:
+        got = [(r.value, r[b'SEQ '].value) for r in t.genRows()]
+    except Exception as e:
+        ctx.fail(case, 'rows read back cannot be inspected: %r' % (e,)); return
     want = [(names[i], i) for i in keep]
     if got != want:
         ctx.fail(case, 'rows kept %r, expected first occurrences %r' % (got, want)); return
